@@ -202,6 +202,7 @@ pub fn record(corpus_dir: &str, patterns_file: &str, mode: &str, per_program: us
         }
         let name = f.file_name().unwrap().to_string_lossy().to_string();
         let variants: Vec<(&str, bool)> = if injective { vec![("orig", false), ("codestr", true)] } else { vec![("orig", false)] };
+        let mut orig_flags: Option<Vec<Option<Vec<i32>>>> = None;
         for (vname, repl) in variants {
             let toks = match tokenize(&orig) {
                 Some(t) if !t.spans.is_empty() => t,
@@ -225,6 +226,26 @@ pub fn record(corpus_dir: &str, patterns_file: &str, mode: &str, per_program: us
             let mut flags: Vec<Option<Vec<i32>>> = vec![];
             for d in dets.iter() {
                 flags.push(d.run(&canon).ok().map(|s| s.into_iter().collect()));
+            }
+            // what a string literal SAYS is no finding: with every literal replaced by code-like text the same tokens are
+            // flagged as before (short_revert_string apart, whose subject is the length of the literal)
+            if vname == "orig" {
+                orig_flags = Some(flags.clone());
+            } else if let Some(of) = &orig_flags {
+                let mut drecs = vec![];
+                for (di, d) in dets.iter().enumerate() {
+                    if d.name() == "short_revert_string" {
+                        continue;
+                    }
+                    if let (Some(Some(f0)), Some(f1)) = (of.get(di), &flags[di]) {
+                        if !f0.is_empty() || !f1.is_empty() {
+                            drecs.push(json!({"d": d.name(), "F": f0, "rep": f1}));
+                        }
+                    }
+                }
+                out.evaluations += 1;
+                trace.push(&json!({"k": "layout", "src": name, "variant": "codestr-vs-orig", "n": n, "inj": true, "gaps": canonical_gaps(n), "inner": [], "dets": drecs}));
+                texts.push(&json!({"src": name, "variant": "codestr-vs-orig", "text": canon, "canon": render(&orig, &toks, &canonical_gaps(n), false)}));
             }
             programs += 1;
             // very long programs (the generated 400-level chain serves C04 / C15): two layouts only
